@@ -146,7 +146,7 @@ def _plain(style_set=None):
 # grammar needs a letter or '/' right after '<'), so no concatenation of atoms forms a new tag.
 TEXT_ATOMS = ["a", " b", "é", "日本☃", "\n", "< ", "<3", ">", "<>", "=>"]
 SEED_ATOMS = ["ñß", "Ω→", "\U0001f600", "да"]
-UNKNOWN_ATOMS = ["<foo>", "<x=y>"]
+UNKNOWN_ATOMS = ["<bar>", "<x=y>"]  # not <foo>: the unknown wrapper is <foo>..</foo>, and tree -> string must stay injective
 NAMED = ["info", "comment", "question", "error", "b", "u", "c1", "c2"]
 # inline styles: (open, close, fg, bg, attribute names)
 INLINE = [
@@ -273,9 +273,9 @@ class Alphabet(object):
 def alphabets(seed):
     extra = SEED_ATOMS[seed % len(SEED_ATOMS)]
     full = Alphabet("full", TEXT_ATOMS + [extra], UNKNOWN_ATOMS, NAMED, ["b"], [0, 1, 2, 3, 4], True)
-    large = Alphabet("large", ["a", " b", "é", "日本☃", "\n", "< ", ">", "<>"], ["<foo>"],
+    large = Alphabet("large", ["a", " b", "é", "日本☃", "\n", "< ", ">", "<>"], ["<bar>"],
                      ["info", "error", "b", "u", "c1"], ["b"], [0, 2, 3], True)
-    medium = Alphabet("medium", ["a", " b", "日本☃", "\n", "< ", ">"], ["<foo>"],
+    medium = Alphabet("medium", ["a", " b", "日本☃", "\n", "< ", ">"], ["<bar>"],
                       ["info", "error"], ["b"], [0, 2, 3], True)
     return {"full": full, "large": large, "medium": medium}
 
@@ -1147,6 +1147,65 @@ def replay_d(case):
 
 
 # ================================================================================================
+# (e) escaped angle brackets: '\\<' is the way to write '<' as a plain character in front of something
+#     that would otherwise be a tag.  Every rendering must show '<' and no backslash, also inside a style.
+# ================================================================================================
+E_ATOMS = [("a", "a"), (" ", " "), ("\\<b>", "<b>"), ("\\</b>", "</b>"), ("\\<info>", "<info>"), ("\\</>", "</>"),
+           ("\\<fg=red>", "<fg=red>"), ("\\<x", "<x"), ("\\< ", "< "), ("\\<nope>", "<nope>")]
+E_WRAPS = [("", ""), ("<info>", "</info>"), ("<b>", "</>"), ("<c1>", "</c1>"), ("<error>", "</error>"),
+           ("<fg=red;options=bold>", "</>"), ("<foo>", "</foo>")]
+
+
+def run_esc_case(case):
+    wi, seq, tail = case
+    o, c = E_WRAPS[wi]
+    inner = "".join(E_ATOMS[i][0] for i in seq)
+    outer = "".join(E_ATOMS[i][0] for i in tail)
+    msg = o + inner + c + outer
+    text = "".join(E_ATOMS[i][1] for i in seq) + "".join(E_ATOMS[i][1] for i in tail)
+    keep = (o + "".join(E_ATOMS[i][1] for i in seq) + c if o == "<foo>" else "".join(E_ATOMS[i][1] for i in seq)) + "".join(E_ATOMS[i][1] for i in tail)
+    a, p = _ansi(), _plain()
+    try:
+        obs = {"ansi.format": a.format(msg), "plain.format": p.format(msg), "ansi.remove_format": a.remove_format(msg),
+               "plain.remove_format": p.remove_format(msg)}
+    except Exception as e:
+        return report.viol("e:crash:" + report.exc_site(e), "formatting %r raised %r" % (msg, e), {"part": "e", "case": case}, keep, repr(e))
+    shown = {k: (strip_sgr(v) if k == "ansi.format" else v) for k, v in obs.items()}
+    for k, v in sorted(shown.items()):
+        if v != keep and v != text:
+            where = "styled" if o and o != "<foo>" else "unstyled"
+            return report.viol("e:escaped-bracket:%s:%s" % (k, where), "%s of %r shows %r, expected %r" % (k, msg, v, keep), {"part": "e", "case": case}, keep, obs)
+    return None
+
+
+def part_e(rep):
+    n = 3 if rep.tier == "quick" else 4
+    cases = []
+    for wi in range(len(E_WRAPS)):
+        for k in range(1, n + 1):
+            for seq in itertools.product(range(len(E_ATOMS)), repeat=k):
+                if not any(E_ATOMS[i][0].startswith("\\") for i in seq):
+                    continue
+                cases.append([wi, list(seq), []])
+                if k <= 2:
+                    for t in range(len(E_ATOMS)):
+                        cases.append([wi, list(seq), [t]])
+
+    def work(share):
+        vs = {}
+        for c in share:
+            v = run_esc_case(c)
+            if v and v["sig"] not in vs:
+                vs[v["sig"]] = v
+        return list(vs.values())
+
+    for vs in par.pmap(work, par.chunks(cases, common.ncpu() * 2)):
+        rep.merge(vs)
+    rep.part("e_escaped_brackets", cases=len(cases), atoms=[x[0] for x in E_ATOMS], wrappers=[w[0] for w in E_WRAPS], max_atoms=n)
+    rep.sample({"part": "e", "case": cases[len(cases) // 2]})
+    return len(cases), len(cases)
+
+
 def pre_import():
     os.environ["COLUMNS"] = "80"
     os.environ["LINES"] = "25"
@@ -1163,13 +1222,15 @@ def replay(case):
         return replay_b(case)
     if part == "c":
         return replay_c(case)
+    if part == "e":
+        return run_esc_case(case["case"])
     return replay_d(case)
 
 
 def main():
     pre_import()
     rep = report.Report(PID, "model_checking")
-    only = os.environ.get("C11_PARTS", "abcd")
+    only = os.environ.get("C11_PARTS", "abcde")
     ev = nt = 0
     if "a" in only:
         n, t = part_a(rep)
@@ -1183,6 +1244,10 @@ def main():
         n, t = part_c(rep)
         ev += n
         nt += t
+    if "e" in only:
+        n, t = part_e(rep)
+        ev += n
+        nt += t
     s = tr = 0
     if "d" in only:
         s, tr, nw = part_d(rep)
@@ -1193,7 +1258,7 @@ def main():
     rep.set("states", s)
     rep.set("transitions", tr)
     rep.set("traces_validated_against_impl", ev)
-    rep.set("exhaustive", only == "abcd")
+    rep.set("exhaustive", only == "abcde")
     rep.set("rule", "non-trivial = (a) message trees with non-empty text inside a registered style (each tree generated once; tree -> string is injective, "
                     "measured in the quick tier) + (b) styles with at least one SGR code + (c) line cases with non-empty text + (d) distinct full-state fingerprints "
                     "of the indentation explorer.  Spaces: (a) every ordered forest with the stated node count over the stated alphabet, (b) every fg x bg x attribute set, "
